@@ -278,6 +278,9 @@ CORPUS["C11"] = [
 ]
 
 CORPUS["C12"] = [
+    M("spectrum section captured at construction", (SPEC, "        self.config = config\n\n    def __call__(self, N, *args, **kwargs):\n        return (\n            energy_spectra(N, self.config.simulation.spectrum, *args, **kwargs),", "        self.config = config\n        self.spectrum = config.simulation.spectrum\n\n    def __call__(self, N, *args, **kwargs):\n        return (\n            energy_spectra(N, self.spectrum, *args, **kwargs),")),
+    B("spectrum looked up once per call through a live property", (SPEC, "        self.config = config\n\n    def __call__(self, N, *args, **kwargs):\n        return (\n            energy_spectra(N, self.config.simulation.spectrum, *args, **kwargs),\n            spec_norm(self.config.simulation.spectrum, *args, **kwargs),\n            sum_spec_weights(self.config.simulation.spectrum, *args, **kwargs),\n        )", "        self.config = config\n\n    @property\n    def _spectrum(self):\n        return self.config.simulation.spectrum\n\n    def __call__(self, N, *args, **kwargs):\n        spectrum = self._spectrum\n        return (\n            energy_spectra(N, spectrum, *args, **kwargs),\n            spec_norm(spectrum, *args, **kwargs),\n            sum_spec_weights(spectrum, *args, **kwargs),\n        )")),
+    B("constructor only inspects the spectrum, the call looks it up again", (SPEC, "        self.config = config\n\n    def __call__(self, N, *args, **kwargs):", "        self.config = config\n        self._kind = type(config.simulation.spectrum).__name__\n\n    def __call__(self, N, *args, **kwargs):")),
     M("index-1 guard removed from spec_norm", (SPEC, "        if mp == 0:\n            return 1.0 / np.log(b / a)\n", "")),
     M("spec_norm halved", (SPEC, "        return mp / (b**mp - a**mp)", "        return mp / (b**mp - a**mp) / 2")),
     M("uniform on [0, 2]", (SPEC, "u = np.random.uniform(0.0, 1.0 + np.finfo(np.float64).eps, size=N)", "u = np.random.uniform(0.0, 2.0, size=N)")),
